@@ -91,7 +91,7 @@ def coverage_protos():
                                  num('Nums', 'i64', repeat=True), Field('ref', 'Detail', packet='Detail', named=False, repeat=True),
                                  Field('inline', 'Extra', fields=[num('Xa', 'u8'), dyn('Ya', doc='y'), Field('inline', 'Deep', fields=[num('Za', 'f32')])], repeat=True)]),
                 Packet('Logout', [Field('meta', 'Mine', entry='Code', named=True, pad=('right', 'sp')), Field('ref', 'Info', packet='Detail', named=True)]),
-                Packet('Detail', [dyn('RuleName'), num('Code', 'u16', alias=True)]),
+                Packet('Detail', [dyn('RuleName', tag=58), num('Code', 'u16', alias=True, tag=7, doc='c')]),
                 Packet('Empty', [])],
                gen.base_options('Ca', {'LittleEndian': 'true', 'StringPrefixLenType': 'u8', 'FixedStringPadChar': "'0'"}), md, tag='Ca')
     out.append(p1)
